@@ -217,6 +217,19 @@ func (g *pgen) node(depth int) []interface{} {
 			if r.Bool() {
 				pre = append(pre, nRaw(sAssign(eDot(eId(ob), "pears"), eNum("5"))))
 			}
+			if r.Bool() {
+				// a member that is PRESENT but holds null / undefined (`{title: page.title}` without a title in the data) and is
+				// assigned later keeps its one place in the order
+				nul := eId([]string{"z", "undefinedVar"}[r.Intn(2)])
+				pre[0] = nRaw(sVar(ob, eObj("pears", eNum("1"), "title", nul, "apples", eStr("two"))))
+				pre = append(pre, nRaw(sAssign(eDot(eId(ob), "late"), nul)))
+				if r.Bool() {
+					pre = append(pre, nRaw(sAssign(eDot(eId(ob), "title"), eStr("Untitled"))))
+				}
+				if r.Bool() {
+					pre = append(pre, nRaw(sAssign(eIdx(eId(ob), eStr("late")), eNum("7"))))
+				}
+			}
 			return append(pre, nEach(val, key, eId(ob), body...))
 		}
 		return []interface{}{nEach(val, key, obj, body...)}
